@@ -870,6 +870,8 @@ class Interp:
         if found is not None:
             kind, mod, cls, n = found
             self.invoke(mod, cls, n, obj, args, kwargs, node)
+        # built by running the real constructor: the instance attributes are exactly those it assigned (class attributes: find_attr)
+        obj.fields["__complete__"] = True
         return obj
 
     def bind(self, fnode, args, kwargs, env, call_node=None):
@@ -1345,6 +1347,8 @@ class Interp:
                     if t.attr not in obj.fields:
                         self.raise_("AttributeError")
                     del obj.fields[t.attr]
+                    # from now on the attribute is KNOWN to be absent (hasattr / getattr-with-default are strict about undeclared names)
+                    obj.fields["__hasattr__"] = dict(obj.fields.get("__hasattr__") or {}, **{t.attr: False})
                 else:
                     self.unsupported(node, "del attribute of %r" % (obj,))
             elif isinstance(t, ast.Subscript):
